@@ -228,14 +228,14 @@ PROPERTIES = {
              'set a conservative estimate of what changed); `recheck` itself (rayon type checking, error collation, GC) is not covered',
   },
   'C14': {
-    'verus': ['lexer', 'parsetok'],
+    'verus': ['lexer', 'parsetok', 'prodloc'],
     'verus_route': {'lexer': 'positions'},
     'kani': ['loc'],
     'level': 'proof',
     'scope': 'kernels only: Position order / Location contains / union algebra over all u32 values; the lexer\'s tracked '
              'line/column equals the position of the consumed byte offset for whitespace, strings, line and block comments; '
              'the parser\'s `last_location` is the location of the last consumed token and looking ahead does not move it (peek / consume); '
-             'the ~60 union call sites in the parser are not covered',
+             'the ranges built by parse_type_parameter and parse_identifier_annot enclose their parts; the other union call sites of the parser are not covered',
   },
   'C17': {
     'verus': ['heap'],
@@ -313,6 +313,8 @@ STANDING_ASSUMPTIONS = {
                'recheck; `recheck` is a stub whose precondition is its documented contract; DependencyGraph::{new, affected_set} carry the '
                'contracts proved in unit depgraph; parse / build_module_signature are uninterpreted functions of (text, module) / (module, parse); '
                'a module\'s imports depend only on its own parsed form'],
+  'prodloc': ['Verus/Z3; ranges are abstract with the nesting order and the union contract of Kani unit loc (all tokens of one parser share their module); '
+              'peek / consume / parse_upper_id_with_comments / parse_optional_type_arguments are opaque'],
   'parsetok': ['Verus/Z3; the parser is reduced to the fields peek / consume touch, TokenContent to the comment variants, EndOfFile and an opaque rest (R6); '
                'the token stream is an abstract sequence; termination of peek is not proved (exec_allows_no_decreases_clause)'],
   'depgraph': [
